@@ -21,10 +21,11 @@ Proof. unfold num_open_axes, tshape. destruct (dget VT (tensors n)); reflexivity
 Lemma num_tensors_WF n : WF n -> num_tensors n = Some (length (tensors n) - 1)%nat.
 Proof. intros [_ HV]. unfold num_tensors. apply dhas_In in HV. rewrite HV. reflexivity. Qed.
 
-Theorem rename_tensor_counts n a c n' : WF n -> a <> VT -> rename_tensor n a c = Some n' ->
+Theorem rename_tensor_counts n a c n' : WF n -> rename_tensor n a c = Some n' ->
   num_tensors n' = num_tensors n /\ num_bonds n' = num_bonds n /\ num_open_axes n' = num_open_axes n.
 Proof.
-  intros W Ha H. pose proof (sstep_WF n (SRenT a c) n' W Ha H) as W'.
+  intros W H. pose proof (sstep_WF n (SRenT a c) n' W I H) as W'.
+  destruct (rename_tensor_pub n a c n' H) as [Ha Hp]. clear H. rename Hp into H.
   destruct W as [W0 HV]. destruct (rename_tensor_len n a c n' W0 H) as [LT LB].
   rewrite (num_tensors_WF n' W'), (num_tensors_WF n (conj W0 HV)), !num_open_axes_tshape.
   unfold num_bonds. rewrite LT, LB. split; [reflexivity|]. split; [reflexivity|].
@@ -42,10 +43,11 @@ Proof.
   unfold num_bonds. rewrite LT, LB, (tshape_rename_bond n a c n' VT W0 H). auto.
 Qed.
 
-Theorem transpose_counts n axes n' : WF n -> is_perm_of axes n -> transpose n axes = Some n' ->
+Theorem transpose_counts n axes n' : WF n -> transpose n axes = Some n' ->
   num_tensors n' = num_tensors n /\ num_bonds n' = num_bonds n /\ num_open_axes n' = num_open_axes n.
 Proof.
-  intros W P H. pose proof (sstep_WF n (STrans axes) n' W P H) as W'.
+  intros W H. pose proof (sstep_WF n (STrans axes) n' W I H) as W'.
+  pose proof (transpose_is_perm n axes n' (proj1 W) H) as P.
   rewrite (num_tensors_WF n' W'), (num_tensors_WF n W).
   destruct W as [W0 HV]. destruct (transpose_spec n axes n' H) as [t [Ht [_ [_ ->]]]].
   unfold num_bonds, num_open_axes. cbn [tensors bonds]. rewrite dset_length_in by assumption.
@@ -154,17 +156,18 @@ Proof.
 Qed.
 
 Theorem merge_counts n o joins ordT ordB n' :
-  WF n -> WF o -> joins_dim_ok n o joins -> merge n o joins ordT ordB = Some n' ->
+  WF n -> WF o -> merge n o joins ordT ordB = Some n' ->
   forall nt1 nt2 no1 no2, num_tensors n = Some nt1 -> num_tensors o = Some nt2 ->
     num_open_axes n = Some no1 -> num_open_axes o = Some no2 ->
   num_tensors n' = Some (nt1 + nt2)%nat /\
   (num_bonds n' <= num_bonds n + num_bonds o <= num_bonds n' + length joins)%nat /\
   (** joins that use every open axis at most once *)
-  (NoDup (map fst joins) -> NoDup (map snd joins) -> (forall j, In j joins -> (snd j < no2)%nat) ->
+  (NoDup (map fst joins) -> NoDup (map snd joins) ->
    num_open_axes n' = Some (no1 + no2 - 2 * length joins)%nat).
 Proof.
-  intros Wn Wo JD H nt1 nt2 no1 no2 Hnt1 Hnt2 Hno1 Hno2.
-  pose proof (merge_WF n o joins ordT ordB n' Wn Wo JD H) as W'.
+  intros Wn Wo H nt1 nt2 no1 no2 Hnt1 Hnt2 Hno1 Hno2.
+  pose proof (merge_joins_dim_ok n o joins ordT ordB n' H) as JD.
+  pose proof (merge_WF n o joins ordT ordB n' Wn Wo H) as W'.
   destruct (merge_stages_intro n o joins ordT ordB n' Wn Wo H)
     as [vtn vto o2 tmp x2 n2 n3 amap n4 t3 Hvtn Hvto Wo2 LT2 LB2 DT DB HtmpV E2 Sx2 En2 W2 JF Ht3 DF T4 En Hr].
   set (Sh := t_shape vtn ++ t_shape vto) in *.
@@ -177,6 +180,10 @@ Proof.
     exists d. unfold Sh. split.
     - rewrite nth_error_app1; [assumption|]. apply nth_error_Some. congruence.
     - rewrite nth_error_app2 by lia. rewrite <- B. f_equal. lia. }
+  assert (Hr2 : forall j, In j joins -> (snd j < length (t_shape vto))%nat).
+  { intros j Hj. destruct (JD (t_shape vtn) (t_shape vto)) with (j := j) as [d [_ B]];
+      [unfold shape; rewrite Hvtn; reflexivity | unfold shape; rewrite Hvto; reflexivity | assumption |].
+    apply nth_error_Some. congruence. }
   destruct (join_fold_counts _ _ Sh _ _ _ _ W2 S2 HJ JF) as [LT3 [LB3 EA]].
   pose proof (del_fold_bond_len _ _ _ DF) as LB4.
   destruct Wn as [Wn0 HVn]. destruct Wo as [Wo0 HVo].
@@ -201,7 +208,7 @@ Proof.
   rewrite (num_tensors_WF n' W'). subst n'. unfold num_bonds. cbn [tensors bonds].
   rewrite dset_length_in by (rewrite T4; eapply dget_Some_key; eauto). rewrite T4.
   split; [f_equal; lia|]. split; [lia|].
-  intros N1 N2 Hr2.
+  intros N1 N2.
   rewrite num_open_axes_tshape. unfold tshape. cbn [tensors]. rewrite dget_dset, Z.eqb_refl. cbn.
   rewrite map_length. f_equal.
   unfold num_open_axes in Hno1, Hno2. rewrite Hvtn in Hno1. rewrite Hvto in Hno2. cbn in Hno1, Hno2.
